@@ -738,6 +738,7 @@ func seededPRNG(r *ev.Run, mon *chalMon) {
 
 type stubHandler struct {
 	name      string
+	alias     string
 	accept    bool
 	panics    bool
 	genFails  int // 0 no, 1 typed error, 2 plain error, 3 no keys and no error (nil), 4 no keys and no error (empty slice)
@@ -746,7 +747,12 @@ type stubHandler struct {
 	log       *[]string
 }
 
-func (s *stubHandler) Name() string { return s.name }
+func (s *stubHandler) Name() string {
+	if s.alias != "" {
+		return s.alias // several configured handlers may well carry one name; they are told apart by position
+	}
+	return s.name
+}
 func (s *stubHandler) Authenticate(*csr.ReqParam) error {
 	s.authCalls++
 	*s.log = append(*s.log, "auth:"+s.name)
@@ -1023,6 +1029,9 @@ func oneList(r *ev.Run, c *ev.Case, n, pat, realPos int, realOK bool, variant in
 			continue
 		}
 		s := &stubHandler{name: fmt.Sprintf("stub%d", i), accept: pat&(1<<uint(i)) != 0, log: &log, authCalls: (variant + i) % 12}
+		if variant%4 == 3 {
+			s.alias = "Regular" // the name of the real handler, too
+		}
 		stubs = append(stubs, s)
 		hs = append(hs, s)
 		if s.accept && firstAccept == "" {
